@@ -624,6 +624,13 @@ int dhcp_fastpath_prog(struct xdp_md *ctx) {
 	if (parse_packet_headers(ctx, &pkt) < 0)
 		return XDP_PASS;  /* Not a DHCP packet */
 
+	/* The reply is built in place for a 20-byte IP header (lengths, UDP
+	 * position and header checksum): requests that carry IP options are
+	 * left to the slow path, untouched.
+	 */
+	if (pkt.ip->ihl != 5)
+		return XDP_PASS;
+
 	/* Verify BOOTREQUEST */
 	if (pkt.dhcp->op != BOOTREQUEST)
 		return XDP_PASS;
